@@ -178,6 +178,44 @@ Theorem C03_order_independent : forall order1 req1 order2 req2 step cols,
 Proof. exact order_independent_l. Qed.
 Print Assumptions C03_order_independent.
 
+(* ---------- execution modes (Model/Modes.v) ----------
+   SYNC / THREADING select from the object's own data; MULTIPROCESSING selects, in the parent, from the table a worker
+   process uploaded to the Flight store (seen_cols).  held s / transferred s: the columns held where the step ran / of the
+   downloaded table.  Hypothesis: the transfer keeps the column SET (it may reorder) -- observed on every MULTIPROCESSING run
+   (uploads recorded in the worker processes vs the columns the parent's selection saw). *)
+Require Import MV.Model.Modes.
+
+Theorem C03_exact_any_mode : forall (order req : list feature),
+  (forall r, In r req -> fflag r = true /\ In r order) ->
+  (forall g, In g order -> fflag g = true -> In g req) ->
+  forall (step : feature -> nat) (held transferred : nat -> list string),
+  (forall a b, feq a b = true -> step a = step b) ->
+  (forall s, Permutation (transferred s) (held s)) ->
+  forall m s c,
+    In c (step_table_in m held transferred step (collect order) s) <->
+    In c (held s) /\ exists r, In r req /\ step r = s /\ owner (fname r) c.
+Proof. exact exact_any_mode_l. Qed.
+Print Assumptions C03_exact_any_mode.
+
+(* what a step returns does not depend on the mode: the same set (ordering None), the very same list ('alphabetical',
+   'request_order' for the iteration order `iter` of the requested names), or the same error *)
+Theorem C03_result_mode_independent : forall m m' iter held transferred o s,
+  Permutation (transferred s) (held s) ->
+  match identify iter (seen_cols m held transferred s) o, identify iter (seen_cols m' held transferred s) o with
+  | RErr, RErr => True
+  | RSet a, RSet b => Permutation a b
+  | RList a, RList b => a = b
+  | _, _ => False
+  end.
+Proof. exact result_mode_independent_l. Qed.
+Print Assumptions C03_result_mode_independent.
+
+Theorem C03_step_table_mode_independent : forall m m' held transferred step coll s,
+  Permutation (transferred s) (held s) ->
+  Permutation (step_table_in m held transferred step coll s) (step_table_in m' held transferred step coll s).
+Proof. exact step_table_mode_independent_l. Qed.
+Print Assumptions C03_step_table_mode_independent.
+
 (* ---------- non-vacuity ---------- *)
 (* root group 0: a, b, m~0, m~1 (index k, link to group 2); group 1: p with input a; filter on b;
    request [b; p; m~1]: three calls flagged, dependency a and the aux features unflagged *)
@@ -201,4 +239,15 @@ Example C03_examples :
   identify ["zz"] ex_cols ONone = RErr /\
   identify ["m"; "m~1"] ex_cols ORequest = RList ["m~0"; "m~1"] /\
   set_feature_name ["p"] "p~1" = "p" /\ set_feature_name [] "m~1" = "m~1" /\ base_feature "m~1~x" = "m".
+Proof. vm_compute. repeat split. Qed.
+
+(* MULTIPROCESSING: the downloaded table lists the columns in another order than the worker's object held them *)
+Example C03_mode_example :
+  let st := process_request 4 ex_env ["b"; "p"; "m~1"] in
+  let held := fun s : nat => if Nat.eqb s 0 then ex_cols else ["a"; "p"] in
+  let transferred := fun s : nat => if Nat.eqb s 0 then rev ex_cols else ["p"; "a"] in
+  step_table_in MSync held transferred fgrp (fst st) 0 = ["b"; "m~1"] /\
+  step_table_in MMultiprocessing held transferred fgrp (fst st) 0 = ["m~1"; "b"] /\
+  identify ["m"; "b"] (seen_cols MMultiprocessing held transferred 0) ORequest = RList ["m~0"; "m~1"; "b"] /\
+  identify ["m"; "b"] (seen_cols MThreading held transferred 0) ORequest = RList ["m~0"; "m~1"; "b"].
 Proof. vm_compute. repeat split. Qed.
